@@ -29,7 +29,7 @@
 (***************************************************************************)
 EXTENDS Integers, Sequences, FiniteSets, TLC
 
-CONSTANTS Threads, WC, KA, NConn, MaxReq, Faults, Dev, Obs, MaxLevel
+CONSTANTS Threads, WC, KA, NConn, MaxReq, Faults, AllowTerm, Dev, Obs, MaxLevel
 
 Conns == 1..NConn
 MaxKeepalived == WC - Threads
@@ -346,7 +346,7 @@ Tick ==
   /\ EnvUnch /\ UNCHANGED <<client, pend, sent, wantKeep, backlog, alive, termed, parentDead>>
 
 Term ==
-  /\ ~termed /\ mpc \notin {"exited", "gone"} /\ termed' = TRUE /\ alive' = FALSE /\ Note("Term", 0, "")
+  /\ AllowTerm /\ ~termed /\ mpc \notin {"exited", "gone"} /\ termed' = TRUE /\ alive' = FALSE /\ Note("Term", 0, "")
   /\ EnvUnch /\ UNCHANGED <<ttl, client, pend, sent, wantKeep, backlog, parentDead>>
 
 ParentDies ==
@@ -404,5 +404,5 @@ EventuallyClosed == \A c \in Conns : accepted[c] ~> closed[c]
 ReturnsToZero == <>[](nrConns = 0 \/ mpc = "gone")
 ReapedWhenExpired == \A c \in Conns : (InKeep(c) /\ ttl[c] = 0 /\ alive) ~> (~InKeep(c) \/ ~alive)
 \* C18/C04 view: nothing that has arrived is abandoned at loop exit
-NoPendingDroppedAtExit == mpc = "shutdown" => \A c \in reg : ~pend[c]
+NoPendingDroppedAtExit == (mpc = "shutdown" /\ ~parentDead) => \A c \in reg : ~pend[c]
 =============================================================================
